@@ -613,7 +613,7 @@ func (g *Gen) runPass() {
 		}
 	}
 	if g.ct != nil {
-		g.bindLets(g.ct, g.paramEnv, st, st)
+		g.bindLetsT(g.ct, g.paramEnv, st, st, true)
 		var reqs []string
 		for _, c := range g.ct.Requires {
 			env := g.envAt(st, st, g.pkg, g.paramEnv)
@@ -633,6 +633,12 @@ func (g *Gen) runPass() {
 }
 
 func (g *Gen) bindLets(ct *Contract, vars map[string]T, st, old State) {
+	g.bindLetsT(ct, vars, st, old, false)
+}
+
+// bindLetsT: with tolerant set, a let that cannot be evaluated yet (it mentions results or
+// the locked state) is skipped silently; it is bound again at the returns.
+func (g *Gen) bindLetsT(ct *Contract, vars map[string]T, st, old State, tolerant bool) {
 	for _, l := range ct.Lets {
 		cl, err := parseClause(l[1], ct.Where)
 		if err != nil {
@@ -641,6 +647,9 @@ func (g *Gen) bindLets(ct *Contract, vars map[string]T, st, old State) {
 		}
 		env := g.envAt(st, old, g.prog.typesPkg(ct.Pkg), vars)
 		t := env.compile(cl.Expr, nil)
+		if tolerant && len(env.errs) > 0 {
+			continue
+		}
 		g.reportSpecErrors(env, cl)
 		vars[l[0]] = t
 	}
